@@ -346,6 +346,7 @@ func runHistory(c *mon.Case, f *fileFixture, nReaders, steps int) {
 			return
 		}
 	}
+	c.Sample(map[string]any{"fixture": f.Name, "len": l, "readers": nReaders, "history": trace})
 	c.Sig(fmt.Sprintf("%s|r%d|%s", f.Name, nReaders, strings.Join(sig, "")), hasSeek && hasRead)
 }
 
